@@ -35,6 +35,8 @@ type Engine struct {
 	pkgRepl *strings.Replacer
 	assumptionsUsed map[string]bool
 	funcIDs map[*ssa.Function]int
+	known   []*KnownFinding
+	replayOracles map[string]string
 }
 
 func (e *Engine) isRepoPkg(path string) bool {
